@@ -248,13 +248,22 @@ func EveryPathFromHas(start, target *ssa.BasicBlock, pats ...string) (ok bool, t
 	seen := map[*ssa.BasicBlock]bool{start: true}
 	work := []*ssa.BasicBlock{start}
 	first := true
+	var backFrom *ssa.BasicBlock
 	for len(work) > 0 {
 		b := work[0]
 		work = work[1:]
 		if b == target && !(first && start == target) {
 			var tr []int
-			for x := b; x != nil; x = parent[x] {
+			x := b
+			if start == target && backFrom != nil {
+				tr = []int{b.Index}
+				x = backFrom
+			}
+			for ; x != nil; x = parent[x] {
 				tr = append([]int{x.Index}, tr...)
+				if x == start {
+					break
+				}
 			}
 			return false, tr
 		}
@@ -272,6 +281,9 @@ func EveryPathFromHas(start, target *ssa.BasicBlock, pats ...string) (ok bool, t
 			seen[s] = true
 			if _, ok := parent[s]; !ok && s != start {
 				parent[s] = b
+			}
+			if s == start && backFrom == nil {
+				backFrom = b
 			}
 			work = append(work, s)
 		}
